@@ -575,9 +575,11 @@ def oracle_C05(rs, n, ctx):
             if not np.array_equal(ga, gb):
                 # known finding F10: the absolute sentinel Big=1e5 leaks rounding noise of size ulp(Big) ~ 1.5e-11
                 # (absolute) where an operator consumed two uninitialised neighbours; anything larger is new
-                absd = float(np.abs(a.grid - b.grid / c).max()) if which == "length" else float(np.abs(a.grid - b.grid / c).max())
-                noise = 64 * 1.4551915228366852e-11 * max(1.0, 1.0 / c if c < 1 else 1.0)
-                key = "C05:pow2-sentinel-noise" if rel <= 1e-9 else f"C05:{which}-pow2"
+                # the noise is absolute in the unit system of the run it arose in: at most 64 ulp(Big) in b's units, or
+                # 64 ulp(Big) * c when it arose in a's run and was scaled by c for the comparison
+                absd = float(np.abs(ga - gb).max())
+                noise = 64 * 1.4551915228366852e-11 * max(1.0, c)
+                key = "C05:pow2-sentinel-noise" if (absd <= noise or rel <= 1e-9) else f"C05:{which}-pow2"
                 R.violate(key, f"power-of-two scaling ({which}, c={c}): max rel diff {rel:.3e} (must be 0)", dict(rep, rel=rel))
         elif rel > 1e-9:
             R.violate(f"C05:{which}-rel", f"scaling ({which}, c={c}): max rel diff {rel:.3e} > 1e-9", rep)
@@ -619,6 +621,10 @@ def oracle_C06(rs, n, ctx):
         cells, d, _ = rand_setup(rs, nd, 1, 9 if nd == 2 else 4)
         v, kind = gens.rand_model(rs, cells)
         o = [float(rs.choice([-64.0, 8.0, 1024.0, 0.3, -1e6, 12345.678])) for _ in range(nd)]
+        if rs.rand() < 0.2:
+            # the far corner of the model at (or one cell short of) the coordinate zero
+            k0 = int(rs.randint(0, 2))
+            o = [-(cells[a] + k0) * d[a] for a in range(nd)]
         multi = rs.rand() < 0.5
         nsrc = int(rs.randint(2, 4)) if multi else 1
         srels = [np.array(gens.rand_source_rel(rs, cells, d)[0]) for _ in range(nsrc)]
@@ -674,7 +680,48 @@ def oracle_C06(rs, n, ctx):
                 coord_err = 4.5e-16 * max(abs(x) for x in o) * float((1.0 / v).max())
                 tolv = 1e-9 * sc + 4 * coord_err
                 if np.abs(v0 - v1)[inside_mask].max() > tolv:
-                    R.violate("C06:interp", f"interpolated values differ by {np.abs(v0 - v1)[inside_mask].max():.3e} > {tolv:.3e}", rep)
+                    # known finding F20: a source within 1e-5 of a cell of a node (not on it) makes the apparent velocity
+                    # distance/time at that node ill-conditioned; the two frames round the tiny offset differently and
+                    # values interpolated in the cells around the source then differ by up to ~1e-3 relative
+                    offs = [abs(srcs0[k_][a] / d[a] - round(srcs0[k_][a] / d[a])) for a in range(nd)]
+                    illc = all(x < 1e-5 for x in offs) and any(x > 0 for x in offs) and np.abs(v0 - v1)[inside_mask].max() <= 1e-3 * sc
+                    R.violate("C06:interp-near-node-source-ill-conditioned" if illc else "C06:interp",
+                              f"interpolated values differ by {np.abs(v0 - v1)[inside_mask].max():.3e} > {tolv:.3e}", rep)
+            # rays: the translated end point gives the translated ray (default step and budget, free and grid-honouring)
+            if representable and k_ == 0:
+                for q0 in pts0[:2]:
+                    q1 = q0 + np.asarray(o)
+                    if not np.array_equal(q1 - np.asarray(o), q0):
+                        continue
+                    hg = bool(rs.rand() < 0.4)
+                    outs = []
+                    for t_, q_ in ((t0, q0), (t1, q1)):
+                        try:
+                            outs.append(("ok", np.asarray(t_.raytrace(q_, honor_grid=hg))))
+                        except Exception as ex:  # noqa: BLE001
+                            outs.append(("exc", type(ex).__name__))
+                    R.bump("rays_compared")
+                    rrep = dict(rep, end_point_hex=hexl(q1), honor_grid=hg)
+                    if outs[0][0] != outs[1][0] or (outs[0][0] == "exc" and outs[0][1] != outs[1][1]):
+                        R.violate("C06:ray-outcome", f"ray outcome changes with the origin: {outs[0][0]}/{outs[0][1] if outs[0][0] == 'exc' else len(outs[0][1])} vs {outs[1][0]}/{outs[1][1] if outs[1][0] == 'exc' else len(outs[1][1])}", rrep)
+                        continue
+                    if outs[0][0] == "exc":
+                        R.bump("rays_both_raise")
+                        continue
+                    r0, r1 = outs[0][1], outs[1][1] - np.asarray(o)
+                    tolr = 1e-9 * size + 64 * 2.3e-16 * max(abs(x) for x in o)
+                    m_ = min(len(r0), len(r1))
+                    if abs(len(r0) - len(r1)) > 1:
+                        R.violate("C06:ray-length", f"translated ray has {len(r1)} vertices, the original {len(r0)}", rrep)
+                    elif m_ and np.abs(r0[:m_ - 1] - r1[:m_ - 1]).max(initial=0.0) > tolr:
+                        dev = float(np.abs(r0[:m_ - 1] - r1[:m_ - 1]).max())
+                        # known finding F21: in cells elongated by more than 4:1 a free-step ray zigzags between the
+                        # faces of the thin axis over hundreds of steps and amplifies the rounding of the translated
+                        # coordinates (identical gradient grids) to ~1e-4 of the model size
+                        sens = max(d) / min(d) > 4 and dev <= 1e-2 * size and len(r0) > 50
+                        R.violate("C06:ray-sensitivity-elongated-cells" if sens else "C06:ray", f"translated ray differs by {dev:.3e} > {tolr:.3e} ({len(r0)} vertices, aspect {max(d) / min(d):.0f})", rrep)
+                    elif len(r0) != len(r1):
+                        R.bump("rays_vertex_count_differs_by_one")
     return R
 
 
